@@ -96,13 +96,17 @@ struct is_record<U, std::void_t<decltype(std::declval<U&>().zombie_node)>>: std:
 template<class U>
 struct VAlloc {
     using value_type = U;
+    // a STATEFUL allocator in the C++ sense (instances may compare unequal): the library must not take a different
+    // path for it - in particular it must not serialise readers' allocations with the write mutex (C14)
+    using is_always_equal = std::false_type;
+    long arena = 1;
     VAlloc() noexcept = default;
     template<class V>
-    VAlloc(const VAlloc<V>&) noexcept {}  // NOLINT
+    VAlloc(const VAlloc<V>& o) noexcept: arena(o.arena) {}  // NOLINT
     template<class V>
-    bool operator==(const VAlloc<V>&) const noexcept { return true; }
+    bool operator==(const VAlloc<V>& o) const noexcept { return arena == o.arena; }
     template<class V>
-    bool operator!=(const VAlloc<V>&) const noexcept { return false; }
+    bool operator!=(const VAlloc<V>& o) const noexcept { return arena != o.arena; }
 
     U* allocate(std::size_t n)
     {
@@ -205,6 +209,27 @@ struct Elem {
         return x;
     }
 };
+// the same element without an owning member: TRIVIALLY DESTRUCTIBLE (so is the list node); the allocator's destroy()
+// must still be called for it before deallocate() (cfg[1] = 1 selects it)
+struct TrivElem {
+    long v;
+    using Quiet = Elem::Quiet;
+    TrivElem(Quiet, long x): v(x) {}
+    TrivElem(long x): v(Elem::hook(x)) {}  // NOLINT
+    TrivElem(TrivElem&& o): v(Elem::hook(o.v)) {}
+    TrivElem(const TrivElem& o): v(Elem::hook(o.v)) {}
+    long read() const
+    {
+        if (!active()) return v;
+        S().visible(K_RD_END, nullptr);
+        int i = reg().find(this);
+        long x = v;
+        S().emit(K_RD_END, i >= 0 ? (const void*)reg().cells[i].base : (const void*)this, x);
+        touched(this);
+        return x;
+    }
+};
+static_assert(std::is_trivially_destructible<TrivElem>::value, "TrivElem must be trivially destructible");
 }}  // namespace vs::rcu
 
 namespace vstd2 {
